@@ -48,4 +48,101 @@ theorem errors_iff_binArit_core (op : BinOp) (x y : Int) (hop : plainBin op = tr
   · by_cases h : y = 0 <;> simp [h]
   · by_cases h : y < 0 <;> simp [h]
 
+@[simp] theorem andThen_ok (v : Int) (env : Env) (f : Int → Env → Res × Env) :
+    andThen (.ok v, env) f = f v env := rfl
+@[simp] theorem andThen_err (er : Err) (env : Env) (f : Int → Env → Res × Env) :
+    andThen (.err er, env) f = (.err er, env) := rfl
+@[simp] theorem andThen_panic (env : Env) (f : Int → Env → Res × Env) :
+    andThen (.panic, env) f = (.panic, env) := rfl
+
+theorem andThen_ne_panic {p : Res × Env} {f : Int → Env → Res × Env}
+    (hp : p.1 ≠ .panic) (hf : ∀ v env, (f v env).1 ≠ .panic) : (andThen p f).1 ≠ .panic := by
+  obtain ⟨r, env⟩ := p
+  cases r with
+  | ok v => exact hf v env
+  | err er => simp
+  | panic => exact absurd rfl hp
+
+theorem setVar_ne_panic (env : Env) (n : Bytes) (v : Int) : (setVar env n v).1 ≠ .panic := by
+  unfold setVar; split <;> simp
+
+theorem isNameWord_elim {x : Expr} (h : isNameWord x = true) : ∃ n, x = .word n ∧ validName n = true := by
+  cases x <;> simp [isNameWord] at h
+  exact ⟨_, rfl, h⟩
+
+theorem binArit_ne_panic (op : BinOp) (x y : Int) : binArit op x y ≠ .panic := by
+  cases op <;> simp [binArit] <;> split <;> simp
+
+theorem isAssign_iff (op : BinOp) : isAssign op = true ↔ (op = .assgn ∨ (assignOp op).isSome = true) := by
+  simp [isAssign]
+
+theorem no_panic_both (e : Expr) :
+    (∀ env, WF e = true → (evalArith env e).1 ≠ .panic) ∧
+    (∀ env cond, WFColon e = true → (evalTernBranch env cond e).1 ≠ .panic) := by
+  induction e with
+  | word w => exact ⟨fun env _ => by simp [evalArith], fun env c h => by simp [WFColon] at h⟩
+  | paren x ih =>
+    refine ⟨fun env hwf => ?_, fun env c h => by simp [WFColon] at h⟩
+    simp only [evalArith]; exact ih.1 env (by simpa [WF] using hwf)
+  | unary op post x ih =>
+    refine ⟨fun env hwf => ?_, fun env c h => by simp [WFColon] at h⟩
+    by_cases hinc : op = .inc ∨ op = .dec
+    · simp only [WF, hinc, if_true] at hwf
+      obtain ⟨n, rfl, _⟩ := isNameWord_elim hwf
+      rw [evalArith]
+      simp only [hinc, if_true]
+      exact andThen_ne_panic (setVar_ne_panic _ _ _) (fun _ _ => by simp)
+    · simp only [WF, hinc, if_false, Bool.and_eq_true] at hwf
+      rw [evalArith]
+      simp only [hinc, if_false]
+      refine andThen_ne_panic (ih.1 env hwf.2) (fun v env' => ?_)
+      split <;> simp
+  | binary op x y ihx ihy =>
+    constructor
+    · intro env hwf
+      by_cases hass : isAssign op = true
+      · have hass' := (isAssign_iff op).1 hass
+        simp only [WF, hass', if_true, Bool.and_eq_true] at hwf
+        obtain ⟨n, rfl, _⟩ := isNameWord_elim hwf.1
+        rw [evalArith]
+        simp only [hass, if_true]
+        refine andThen_ne_panic (ihy.1 env hwf.2) (fun v env' => ?_)
+        split
+        · exact setVar_ne_panic _ _ _
+        · split
+          · exact setVar_ne_panic _ _ _
+          · rename_i e hne _
+            intro h
+            exact binArit_ne_panic _ _ _ (by simpa using h)
+      · have hass' : ¬ (op = .assgn ∨ (assignOp op).isSome = true) :=
+          fun h => hass ((isAssign_iff op).2 h)
+        simp only [WF, hass', if_false] at hwf
+        rw [evalArith]
+        simp only [hass, if_false]
+        by_cases ht : op = .ternQuest
+        · simp only [ht, if_true, Bool.and_eq_true] at hwf ⊢
+          exact andThen_ne_panic (ihx.1 env hwf.1) (fun v env' => ihy.2 env' v hwf.2)
+        · simp only [ht, if_false] at hwf ⊢
+          by_cases hl : op = .andL ∨ op = .orL
+          · simp only [hl, if_true, Bool.and_eq_true] at hwf ⊢
+            refine andThen_ne_panic (ihx.1 env hwf.1) (fun v env' => ?_)
+            split
+            · simp
+            · split
+              · simp
+              · exact andThen_ne_panic (ihy.1 env' hwf.2) (fun _ _ => by simp)
+          · simp only [hl, if_false, Bool.and_eq_true] at hwf ⊢
+            refine andThen_ne_panic (ihx.1 env hwf.1.2) (fun v env' => ?_)
+            exact andThen_ne_panic (ihy.1 env' hwf.2) (fun _ _ => binArit_ne_panic _ _ _)
+    · intro env c h
+      simp only [WFColon, Bool.and_eq_true] at h
+      rw [evalTernBranch]
+      split
+      · exact ihx.1 env h.1.2
+      · exact ihy.1 env h.2
+
+theorem no_panic_core (env : Env) (e : Expr) (hwf : WF e = true) : (evalArith env e).1 ≠ .panic :=
+  (no_panic_both e).1 env hwf
+
+
 end ShVerif.C20
